@@ -130,6 +130,14 @@ type Party struct {
 	// database when the node (re)started and never refreshed - what the
 	// chain watcher, funding manager or closer hold in production.
 	Stale *chanstate.OpenChannel
+	// Aged (forks only) is a copy of the LIVE party's start-up handle as it
+	// was in memory at the moment of the fork, re-pointed at the fork's
+	// database: the channel record a long-lived subsystem (the chain
+	// watcher is created at start-up and keeps its OpenChannel) holds after
+	// the link's own handle has advanced the channel many times. Whatever it
+	// needs that changed since it was loaded it must re-read from the
+	// database.
+	Aged *chanstate.OpenChannel
 }
 
 // World is a pair of parties sharing one channel.
